@@ -2,6 +2,7 @@ mod c02;
 mod c03;
 mod c07;
 mod c12;
+mod c13;
 mod c16;
 mod core;
 mod logcap;
@@ -16,6 +17,7 @@ fn main() {
         "c03" => c03::run(&args),
         "c07" => c07::run(&args),
         "c12" => c12::run(&args),
+        "c13" => c13::run(&args),
         "c16" => c16::run(&args),
         other => {
             eprintln!("unknown property or tool: {}", other);
